@@ -148,6 +148,73 @@ def run(ctx, deep, model_ok):
         ctx.count(case, False)
         if sorted(after) != sorted(before) or sorted(x for x in mid if x != old + '\tzq:i:5') != sorted(x for x in before if x != old):
             ctx.violation('failing-input', 'setting/deleting a tag changed more than the edited line', case, before[:3], mid[:3])
+    # histories of tag edits on any line: the text follows an independent model of the tag list (a new tag is appended
+    # with the default datatype of its value; a deleted tag leaves nothing behind, so setting it again starts afresh;
+    # an existing tag keeps its datatype), every other line is unchanged, and the text parses to the same content
+    import re as _re
+    TAGRE = _re.compile(r'^[A-Za-z][A-Za-z0-9]:[AifZJHB]:')
+    VALUES = [(5, 'i', '5'), (-3, 'i', '-3'), (1.5, 'f', '1.5'), ('abc', 'Z', 'abc'), ('a b', 'Z', 'a b'), (0, 'i', '0')]
+    for i in range(20 if not deep else 100):
+        ver = 'gfa1' if i % 2 else 'gfa2'
+        if i < 2:
+            lines = (['S\ta\t*\txx:i:12', 'S\tb\t*', 'L\ta\t+\tb\t-\t*\tzz:Z:k'] if ver == 'gfa1' else
+                     ['S\ta\t10\t*\txx:i:12', 'S\tb\t10\t*', 'E\te\ta+\tb-\t6\t10$\t0\t4\t*\tzz:f:1.0'])
+        else:
+            lines, info = GL.clean_doc(rng, ver)
+        G = g.Gfa(lines, version=ver)
+        cands = [x for x in G.lines if x.record_type in 'SLCPEGFOU' and not x.virtual]
+        if not cands:
+            continue
+        ln = G.line('a') if i < 2 else rng.choice(cands)
+        f = str(ln).split('\t')
+        ntag = 0
+        while ntag < len(f) - 1 and TAGRE.match(f[len(f) - 1 - ntag]):
+            ntag += 1
+        pos, tags = f[:len(f) - ntag], [[t[:2], t[3], t[5:]] for t in f[len(f) - ntag:]]
+        others = sorted(str(x) for x in G.lines if x is not ln)
+        edits = []
+        for k in range(rng.randint(3, 7)):
+            custom = [t[0] for t in tags if t[0][0].islower()]
+            if i < 2 and k < 2:
+                op = [('del', 'xx'), ('set', 'xx', VALUES[3 + i])][k]
+            elif custom and rng.random() < 0.4:
+                op = ('del', rng.choice(custom))
+            else:
+                op = ('set', rng.choice(['zq', 'zr', 'xx']), rng.choice(VALUES))
+            if op[0] == 'set' and any(t[0] == op[1] and t[1] != op[2][1] for t in tags):
+                continue          # a value of another type for an existing tag: outside this model
+            edits.append(op if op[0] == 'del' else (op[0], op[1], op[2][0]))
+            if op[0] == 'del':
+                tags = [t for t in tags if t[0] != op[1]]
+                r = impl.outcome(lambda: ln.delete(op[1]))
+            else:
+                v, dt, txt = op[2]
+                cur = [t for t in tags if t[0] == op[1]]
+                if cur:
+                    cur[0][2] = txt
+                else:
+                    tags.append([op[1], dt, txt])
+                r = impl.outcome(lambda: ln.set(op[1], v))
+            want = '\t'.join(pos + ['%s:%s:%s' % tuple(t) for t in tags])
+            got = impl.outcome(lambda: str(ln))
+            case = {'kind': 'tagedits', 'doc': lines, 'version': ver, 'line': '\t'.join(f), 'edits': edits}
+            py = ("import gfapy\ng=gfapy.Gfa(%r,version=%r)\nl=[x for x in g.lines if str(x)==%r][0]\nfor e in %r:\n"
+                  "  l.delete(e[1]) if e[0]=='del' else l.set(e[1],e[2])\n  print(l)" % (lines, ver, '\t'.join(f), edits))
+            if r[0] != 'ok' or got != ('ok', want):
+                ctx.violation('failing-input', 'after these tag edits the line is not written as the edited text', case, want,
+                              got[1] if got[0] == 'ok' else impl.outcome_name(got), python=py)
+                break
+            if sorted(str(x) for x in G.lines if x is not ln) != others:
+                ctx.violation('failing-input', 'a tag edit changed another line', case, None, None, python=py)
+                break
+        else:
+            ctx.count({'kind': 'tagedits', 'doc': lines, 'version': ver, 'edits': edits}, any(e[0] == 'del' for e in edits))
+            text = real_lines(G)
+            fresh = impl.outcome(lambda: sorted(real_lines(g.Gfa(text, version=ver))))
+            if fresh != ('ok', sorted(text)):
+                ctx.violation('failing-input', 'after tag edits the text of the Gfa does not parse to the same content',
+                              {'kind': 'tagedits', 'doc': lines, 'version': ver, 'edits': edits}, sorted(text)[:3],
+                              fresh[1][:3] if fresh[0] == 'ok' else impl.outcome_name(fresh))
     # known finding F28
     G = g.Gfa(['S\tA\t5\t*', 'S\tB\t5\t*', 'G\tg\tA+\tB+\t5\t*', 'U\tu\tA g'], version='gfa2')
     G.rm('g')
@@ -157,4 +224,14 @@ def run(ctx, deep, model_ok):
 
 
 def replay(ctx, body):
+    case = body.get('case') or {}
+    if case.get('kind') == 'tagedits' and 'line' in case:
+        g = impl.gfapy()
+        def redo():
+            G = g.Gfa(case['doc'], version=case['version'])
+            ln = [x for x in G.lines if str(x) == case['line']][0]
+            for e in case['edits']:
+                ln.delete(e[1]) if e[0] == 'del' else ln.set(e[1], e[2])
+            return str(ln)
+        return impl.outcome(redo) != ('ok', body.get('expected'))
     return GC.replay_history(ctx, 'C05', body, step_oracle)
